@@ -342,4 +342,31 @@ Section C02Model.
     let pos := fit_positions q ref g in
     let s0 := lsum (fun pr => v3norm2 O (v3sub O (fst pr) (snd pr))) (combine pos ref) in
     nsqrt O (min_sum s0 (map (perm_sum pos ref) perms) / nofnat (length g)).
+  (* ---------------------------------------------------------------- the pair list as state over steps and runs
+     coordnum::compute_coordnum: the list is rebuilt when step_relative() % pairListFrequency == 0 (step_relative() is 0
+     at the first step of every run), and used as it is otherwise.  A frame is the two groups at one step. *)
+  Definition pl_step (freq : Z) (r0 : T) (r0v : option V3) (en ed : Z) (tol : T) (cell : option V3)
+             (st : list bool) (rel : Z) (fr : list atom * list atom) : list bool * T :=
+    if Z.eqb (Z.modulo rel freq) 0
+    then (pairlist_build r0 r0v en ed tol cell (fst fr) (snd fr), cv_coordnum r0 r0v en ed tol cell (fst fr) (snd fr))
+    else (st, cv_coordnum_pl st r0 r0v en ed tol cell (fst fr) (snd fr)).
+  (* one run: relative steps rel, rel+1, ...; returns the values and the list left behind *)
+  Fixpoint pl_run (freq : Z) (r0 : T) (r0v : option V3) (en ed : Z) (tol : T) (cell : option V3)
+           (st : list bool) (rel : Z) (frames : list (list atom * list atom)) : list T * list bool :=
+    match frames with
+    | [] => ([], st)
+    | fr :: rest =>
+      let '(st1, v) := pl_step freq r0 r0v en ed tol cell st rel fr in
+      let '(vs, st2) := pl_run freq r0 r0v en ed tol cell st1 (Z.succ rel) rest in
+      (v :: vs, st2)
+    end.
+  (* a session: successive runs, each starting at relative step 0 with the list the previous run left *)
+  Fixpoint pl_session (freq : Z) (r0 : T) (r0v : option V3) (en ed : Z) (tol : T) (cell : option V3)
+           (st : list bool) (runs : list (list (list atom * list atom))) : list (list T) :=
+    match runs with
+    | [] => []
+    | run :: rest =>
+      let '(vs, st1) := pl_run freq r0 r0v en ed tol cell st 0%Z run in
+      vs :: pl_session freq r0 r0v en ed tol cell st1 rest
+    end.
 End C02Model.
